@@ -204,11 +204,20 @@ func main() {
 			var got, gotSearch []vlib.Tri
 			calls := 0
 			var mu sync.Mutex
+			scribble := rng.Intn(2) == 0
 			ff := func(rc *model3d.Rect) bool {
 				mu.Lock()
 				calls++
 				mu.Unlock()
-				return f(rc)
+				res := f(rc)
+				if scribble {
+					// the callback owns the rectangle it is handed: it may use it as scratch space
+					rc.MinVal, rc.MaxVal = rc.MinVal.AddScalar(1e3), rc.MaxVal.AddScalar(2e3)
+				}
+				return res
+			}
+			if scribble {
+				c.Count("mc.filter.filters_overwriting_their_argument", 1)
 			}
 			withProcs(p, func() {
 				got = vlib.CanonTris(vlib.Tris(model3d.MarchingCubesFilter(hs, ff, delta)))
@@ -361,8 +370,10 @@ func main() {
 	raster(r)
 	rasterCollider(r)
 	marginSections(r)
+	procsChange(r)
 
 	r.Require("mc.procs.comparisons", 50)
+	r.Require("procs.changed.comparisons", 30)
 	r.Require("mc.filter.comparisons", 100)
 	r.Require("mc.c2f.comparisons", 8)
 	r.Require("dc.comparisons", 40)
@@ -489,8 +500,18 @@ func marching2(r *vlib.Run) {
 				return boundaryNear(ds, rc, delta*1.01) || (math.Float64bits(rc.MinVal.X)^uint64(c.SubSeed))%3 == 0
 			},
 		}
-		for name, f := range filters {
+		for name, f0 := range filters {
 			var got []vlib.Seg
+			f := f0
+			if rng.Intn(2) == 0 {
+				// the callback owns the rectangle it is handed: it may use it as scratch space
+				f = func(rc *model2d.Rect) bool {
+					res := f0(rc)
+					rc.MinVal, rc.MaxVal = rc.MinVal.AddScalar(1e3), rc.MaxVal.AddScalar(2e3)
+					return res
+				}
+				c.Count("ms.filters_overwriting_their_argument", 1)
+			}
 			withProcs(p, func() { got = vlib.CanonSegs(vlib.Segs(model2d.MarchingSquaresSearchFilter(s, f, delta, iters))) })
 			wit["filter"] = name
 			c.Count("ms.comparisons", 1)
